@@ -213,7 +213,7 @@ func c27Run(c c27Case) *eng.Fail {
 
 func init() {
 	checks["C27"] = eng.Check{
-		Rule: "NewConstUint/NewConstInt: ALL uint8,int8,uint16,int16 values x widths 1..4; uint32/int32/uint64/int64 boundary alphabets (every 2^k, 2^k-1, 2^k+1 and negatives) x widths 1..9, 15..17, 31..33, 39, 40, 63..65, 128, 200, 255; ConstFromUint/Int on the same values; ConstUint[uint8..uint64] on every constant of width 1..3 over bytes {00,01,7f,80,ff} and boundary constants of widths 4..9; NewConst with shorter/equal/longer source slices followed by mutation of the source, WithWidth to every width and every chain WithWidth(w1).WithWidth(w2). Non-trivial = make case where the value is outside the range of at least one smaller width (i.e. not in -128..127).",
+		Rule: "NewConstUint/NewConstInt: ALL uint8,int8,uint16,int16 values x widths 1..4; uint32/int32/uint64/int64 boundary alphabets (every 2^k, 2^k-1, 2^k+1 and negatives) x widths 1..9, 15..17, 31..33, 39, 40, 63..65, 128, 200, 255; ConstFromUint/Int on the same values; ConstUint[uint8..uint64] on every constant of width 1..3 over bytes {00,01,7f,80,ff} and boundary constants of widths 4..9, and on constants of widths 17,32,33,64,255 with one non-zero byte at every position; NewConst with shorter/equal/longer source slices followed by mutation of the source, WithWidth to every width and every chain WithWidth(w1).WithWidth(w2). Non-trivial = make case where the value is outside the range of at least one smaller width (i.e. not in -128..127).",
 		Run: func(r *eng.Run) {
 			do := func(c c27Case) {
 				f := c27Run(c)
@@ -299,6 +299,21 @@ func init() {
 						do(c27Case{Op: "read", Type: ty, Val: v.Text(16), W: w})
 					}
 					do(c27Case{Op: "copy", Val: fmt.Sprintf("%0*x", 2*w, v), W: w})
+				}
+			}
+			// wide constants: exactly one non-zero byte at every position (and with a low byte too),
+			// all ones: the "fits" answer depends on bytes far above the target type
+			for _, w := range []int{17, 32, 33, 64, 255} {
+				var vals []*big.Int
+				for pos := 0; pos < w; pos++ {
+					one := new(big.Int).Lsh(big.NewInt(0x80), uint(pos)*8)
+					vals = append(vals, one, new(big.Int).Or(one, big.NewInt(0x7f)))
+				}
+				vals = append(vals, new(big.Int).Sub(ir.Mod(expr.Width(w)), big.NewInt(1)), new(big.Int))
+				for _, v := range vals {
+					for _, ty := range []string{"u8", "u16", "u32", "u64"} {
+						do(c27Case{Op: "read", Type: ty, Val: v.Text(16), W: w})
+					}
 				}
 			}
 			r.Sample(c27Case{Op: "read", Type: "u16", Val: "01ff80", W: 3})
